@@ -948,7 +948,7 @@ pub fn def(tier: Tier) -> CheckDef {
     for len in 0..=maxlen {
         subs.push(seq_sub(len));
     }
-    for len in 0..=tier.pick(2u32, 3u32) {
+    for len in 0..=3u32 {
         subs.push(other_hosts_sub(len));
     }
     subs.push(singles_sub());
